@@ -235,6 +235,7 @@ type run struct {
 	spinMu   sync.Mutex
 	vmu      sync.Mutex
 	viols    []violation
+	orderLog []string // controlled runs: labels in the order their outcome was computed (failed load / rest of Evaluate)
 }
 
 func newRun(g *graph, s *sched, limit int) *run {
@@ -327,6 +328,7 @@ func (r *run) LoadTarget(label string) (runner.Target, error) {
 		if r.s != nil {
 			r.s.mu.Lock()
 			r.s.log(r.s.me(), "load:unknown")
+			r.orderLog = append(r.orderLog, strconv.Itoa(l))
 			r.s.mu.Unlock()
 		}
 		return nil, e
@@ -424,6 +426,7 @@ func (t *tgt) Evaluate(e runner.Engine) error {
 			c = "1"
 		}
 		r.s.log(r.s.me(), "rest:"+c+":"+strings.Join(append([]string{""}, kinds...), "+"))
+		r.orderLog = append(r.orderLog, strconv.Itoa(l))
 		r.s.mu.Unlock()
 	}
 	r.work()
@@ -485,8 +488,12 @@ func (r *run) summary(result error) string {
 		}
 		return b.String()
 	}
-	return fmt.Sprintf("res=%s st=%s err=%s cyc=%s loads=%s evals=%s free=%d pub=%d", errKind(result), st, er, bits(cy),
-		num(r.loads), num(r.evals), r.limit-capNow, pub)
+	ord := "-"
+	if r.s != nil && len(r.orderLog) > 0 {
+		ord = strings.Join(r.orderLog, ".")
+	}
+	return fmt.Sprintf("res=%s st=%s err=%s cyc=%s loads=%s evals=%s free=%d pub=%d order=%s", errKind(result), st, er, bits(cy),
+		num(r.loads), num(r.evals), r.limit-capNow, pub, ord)
 }
 
 // judge the finished build by the properties' own predicates (independent of the model)
